@@ -13,8 +13,9 @@ type gzWriter struct {
 	data []Value
 }
 type gzReader struct {
-	data []Value
-	pos  int
+	data    []Value
+	pos     int
+	damaged bool // valid header, damaged body/trailer: after the data, every Read is (0, sticky non-EOF error)
 }
 
 var gzWriterT = types.NewNamed(types.NewTypeName(0, nil, "gzWriter", nil), types.NewStruct(nil, nil), nil)
@@ -80,13 +81,16 @@ func init() {
 			return Tuple{(*Value)(nil), mkErr("gzip: invalid header (short)", nil)}
 		}
 		ok := Bool(true)
-		for i, c := range gzMarker {
+		for i, c := range gzMarker[:2] {
 			ok = And(ok, Eq(all[i].(Term), BV(8, int64(c))))
 		}
-		if !e.branch(ok) {
+		ok = And(ok, Eq(all[3].(Term), BV(8, int64(gzMarker[3]))))
+		good := Eq(all[2].(Term), BV(8, '1'))
+		bad := Eq(all[2].(Term), BV(8, '0')) // "GZ0:": a stream cut short or with a wrong checksum
+		if !e.branch(And(ok, Or(good, bad))) {
 			return Tuple{(*Value)(nil), mkErr("gzip: invalid header", nil)}
 		}
-		var cell Value = &gzReader{data: all[len(gzMarker):]}
+		var cell Value = &gzReader{data: all[len(gzMarker):], damaged: !e.branch(good)}
 		return Tuple{&cell, Iface{}}
 	}
 	intrinsics["(*compress/gzip.Reader).Read"] = func(e *Engine, fr *frame, a []Value) Value {
@@ -99,6 +103,9 @@ func init() {
 			r.pos++
 		}
 		if n == 0 && len(dst.a) > 0 {
+			if r.damaged {
+				return Tuple{BV(64, 0), mkErr("gzip: invalid checksum / unexpected EOF", nil)}
+			}
 			return Tuple{BV(64, 0), e.ioEOF()}
 		}
 		return Tuple{BV(64, int64(n)), Iface{}}
